@@ -3,14 +3,24 @@
 Three-way comparison on non-canonical RDKit writings of generated molecules:
     `fgutils.parse.parse(s)`  vs  `fgutils.rdkit.mol_smiles_to_graph(s)`  vs  Lean `smilesDenote`
 (and the Lean model parser).  A disagreement between RDKit and `smilesDenote` on an in-contract
-string is a broken assumption (exit 2); between the parser and `smilesDenote` a violation — or the
-known finding K1 when the string has an `S` atom directly followed by an aromatic `n`.
+string is a broken assumption (exit 2); between the parser and `smilesDenote` a violation — or a
+known finding, classified per case:
+  K1  the string has an `S` atom directly followed by an aromatic `n` (lexes as tin) AND implementation == model;
+  K5  the string has a bond symbol directly before a ring-OPENING digit (`C=1CCC1`: SMILES/RDKit put the bond
+      on the ring closure, FGUtils on the next atom) AND implementation == model AND the same string with
+      that bond symbol moved to the closing digit satisfies the specification.
+Such strings are IN the domain (plain SMILES that both toolkits accept): RDKit 2024 never writes a bond
+symbol at an opening digit, so the harness moves/copies closing-digit bond symbols to the opening digit and
+adds hand-written ring templates whose closure bond is double.
+Out of domain (counted and reported): adjacent ring digits (`C12…`, excluded by the property statement:
+"non-adjacent ring-closure digits"), strings on which RDKit re-perceives aromaticity (Kekulé forms), strings
+RDKit rejects.
 """
 import json
 import os
 import re
 
-from common import Atom, Case, Run, call_impl, prepare, ImplError, sx, load_known_findings, CORPUS_DIR
+from common import Atom, Case, Run, call_impl, ImplError, sx, load_known_findings, CORPUS_DIR
 import c01
 from c01 import S, enc_chain, canon_graph, read_chain, render
 
@@ -29,7 +39,89 @@ CHAINS = ['C', 'CC', 'CCC', 'C=C', 'C#C', 'C(=O)O', 'C(=O)N', 'C#N', 'N', 'O', '
 
 CORPUS = ['CSn1cccc1', 'C1CCCc2c1cccc2', 'c1ccccc1', 'CC(=O)O', 'C1CC1.C1CC1', 'c1ccc(cc1)-c1ccccc1', 'C1CCC2(CC1)CCCC2',
           'N#Cc1ccccc1', 'C1=CCCCC1', 'c1ccc2ccccc2c1', 'ClC(Cl)Br', 'C:C', 'c1ccccc=1', 'O=C1CCCCC1', 'C1CCCC=C1',
-          'c1cc(ccc1)S(=O)(=O)C', 'C(c1ccccc1)Sn1cccc1']
+          'c1cc(ccc1)S(=O)(=O)C', 'C(c1ccccc1)Sn1cccc1',
+          # a bond symbol before a ring-opening digit (K5 when the symbol changes the reading; `-`/`:` agree)
+          'C=1CCC1', 'C=1CCCCC1', 'C=1CCCCC=1', 'C1CCCCC=1', 'CC=1CCOCC1', 'C-1CCC1', 'c:1ccccc1', 'C-1-C=C-C1',
+          'N=1CCCC1', 'C=1(C)CCC1', 'ClC=1CCCC1Br']
+
+# ring templates whose closure bond is double / triple (RDKit itself avoids closing a ring on a multiple bond)
+CLOSURE_BODIES = ['CC', 'CCC', 'CCCC', 'COC', 'CNC', 'CC(C)C', 'CSC', 'CCOC', 'C(F)C', 'CC(=O)C', 'CC(c2ccccc2)C', 'CCCCCC']
+CLOSURE_PREFIX = ['', '', 'C', 'CC', 'OC', 'ClC', 'N(C)', 'O=C(O)', 'c1ccccc1', 'FC(F)(F)']
+CLOSURE_SUFFIX = ['', '', 'C', 'O', 'Cl', 'CC', 'N(C)C', 'c1ccccc1']
+
+
+def closure_template(rng):
+    """a plain SMILES with a double bond written at the CLOSING digit of ring 9 (`…C9…C=9…`)"""
+    first = rng.choice(['C', 'C', 'C', 'N'])
+    pre = rng.choice(CLOSURE_PREFIX)
+    suf = rng.choice(CLOSURE_SUFFIX)
+    if first == 'N':
+        pre = ''            # N=C closure: the nitrogen carries nothing else
+    return pre + first + '9' + rng.choice(CLOSURE_BODIES) + 'C=9' + suf
+
+
+def opening_bond_variants(rng, chain):
+    """move (or copy) the bond symbols written at closing ring digits to the matching opening digit; returns
+    a list of (chain, how) — at most one variant"""
+    marks = []          # (items list, index) of ring marks in textual order
+
+    def walk(c):
+        for k, it in enumerate(c[1]):
+            if it[0] == 'r':
+                marks.append((c[1], k))
+            else:
+                walk(it[2])
+    import copy
+    chain = copy.deepcopy(chain)
+    walk(chain)
+    open_at = {}
+    pairs = []
+    for items, k in marks:
+        rid = items[k][2]
+        if rid in open_at:
+            pairs.append((open_at.pop(rid), (items, k)))
+        else:
+            open_at[rid] = (items, k)
+    cands = [(o, c) for o, c in pairs if c[0][c[1]][1] is not None and o[0][o[1]][1] is None]
+    if not cands:
+        return []
+    how = "moved" if rng.random() < 0.7 else "copied"
+    n = 0
+    for (oi, ok), (ci, ck) in cands:
+        if n and rng.random() < 0.5:
+            continue
+        n += 1
+        b = ci[ck][1]
+        oi[ok] = ('r', b, oi[ok][2])
+        if how == "moved":
+            ci[ck] = ('r', None, ci[ck][2])
+    return [(chain, how)]
+
+
+def normalise_opening_bonds(chain):
+    """the same writing with every bond symbol at an opening ring digit moved to the closing digit (dropped when
+    the closing digit carries one already) — SMILES reads both writings alike"""
+    import copy
+    chain = copy.deepcopy(chain)
+    open_at = {}
+
+    def walk(c):
+        for k, it in enumerate(c[1]):
+            if it[0] == 'r':
+                rid = it[2]
+                if rid in open_at:
+                    items, k0 = open_at.pop(rid)
+                    b = items[k0][1]
+                    if b is not None:
+                        items[k0] = ('r', None, rid)
+                        if it[1] is None:
+                            c[1][k] = ('r', b, rid)
+                else:
+                    open_at[rid] = (c[1], k)
+            else:
+                walk(it[2])
+    walk(chain)
+    return chain
 
 
 def gen_mol(rng):
@@ -145,7 +237,21 @@ def rdkit_view(s):
     return g, mol
 
 
-def make_case(r, s, origin, tags=()):
+def module_level_history(rng, s):
+    """HISTORY scenario for the module-level `fgutils.parse.parse`: `<g,h>` patterns, rejected strings or unfinished
+    patterns are parsed through the same function directly before the SMILES under test"""
+    first = True
+    for _ in range(rng.choice([1, 1, 2, 3])):
+        pre = rng.choice(c01.HISTORY_ITS + c01.HISTORY_REJECTED + c01.HISTORY_REJECTED + c01.HISTORY_UNFINISHED + ['C(C', '1CC'])
+        c01.ml_parse(pre, provocation="first" if first else "more")
+        first = False
+    history = c01.ml_history()
+    return c01.ml_parse(s), history
+
+
+def make_case(r, s, origin, tags=(), reused=None, module_history=False, replay_meta=None):
+    """reused: a c01.ReusedParsers — the SMILES is parsed on a long-lived `Parser()` object (HISTORY scenario);
+    module_history: the module-level parse() is first given other strings; replay_meta: re-run a recorded history"""
     if set(s) - _ALLOWED:
         r.count("filter:rejected_chars(brackets,%,stereo,charges)")
         return None
@@ -154,10 +260,39 @@ def make_case(r, s, origin, tags=()):
         r.count("filter:not_in_grammar")
         return None
     exc = excluded_syntax(chain)
-    for e in exc:
+    opening_bond = "bond_before_opening_digit" in exc
+    hard_exc = exc - {"bond_before_opening_digit"}
+    for e in hard_exc:
         r.count("filter:excluded_syntax:" + e)
     rd = call_impl(rdkit_view, s)
-    impl = call_impl(lambda: __import__("fgutils.parse", fromlist=["parse"]).parse(s))
+    hist_meta = {}
+    tags = list(tags)
+    if replay_meta is not None and replay_meta.get("history") is not None:
+        if replay_meta.get("reused_parser"):
+            impl = c01.replay_history(False, False, replay_meta["history"], s, 0)
+        else:
+            impl = c01.ml_replay(replay_meta["history"], s)
+    elif reused is not None:
+        impl, history, kinds = reused.call(False, False, s, 0)
+        hist_meta = {"reused_parser": True, "history": history}
+        tags += ["history", "history:reused_Parser_object"] + ["history:" + k for k in kinds]
+    elif module_history:
+        impl, history = module_level_history(r.rng, s)
+        hist_meta = {"reused_parser": False, "history": history}
+        tags += ["history", "history:module_level_parse"]
+        if any(h["result"].startswith("raised") for h in history):
+            tags.append("history:after_rejected")
+    else:
+        # a plain call of the module-level parse(); what that function was given before is recorded all the same
+        plain_history = c01.ml_history()
+        impl = c01.ml_parse(s)
+    if hist_meta:
+        fresh = call_impl(lambda: __import__("fgutils.parse", fromlist=["Parser"]).Parser().parse(s))
+        same = (isinstance(impl, ImplError) and isinstance(fresh, ImplError) and impl.kind == fresh.kind) or (
+            not isinstance(impl, ImplError) and not isinstance(fresh, ImplError) and canon_graph(impl) == canon_graph(fresh))
+        hist_meta["history_result_equals_fresh_object"] = same
+        if not same:
+            tags.append("history:differs_from_fresh_object")
     in_contract = False
     if isinstance(rd, ImplError):
         rd_can = rd
@@ -174,7 +309,7 @@ def make_case(r, s, origin, tags=()):
         if not in_contract:
             r.count("filter:out_of_contract(aromaticity re-perceived or non-aromatic bond between aromatic atoms)")
     impl_can = impl if isinstance(impl, ImplError) else canon_graph(impl)
-    in_domain = in_contract and not exc and not isinstance(rd, ImplError)
+    in_domain = in_contract and not hard_exc and not isinstance(rd, ImplError)
     req = [Atom("C02"), Atom("check"), enc_chain(chain), S(s),
            [Atom("raised"), Atom(rd_can.kind)] if isinstance(rd_can, ImplError) else rd_can]
     st = c01.chain_stats(chain)
@@ -185,93 +320,187 @@ def make_case(r, s, origin, tags=()):
           "atoms>=15" if st['atoms'] >= 15 else "atoms<15"]
     if has_S_then_n(s):
         t.append("S_then_n")
-    return Case(req, impl_can, in_domain=in_domain, nontrivial_key=key, tags=t,
-                meta={"smiles": s, "origin": origin, "in_contract": in_contract, "excluded": sorted(exc)})
+    if opening_bond:
+        t.append("bond_before_opening_digit")
+        if in_domain:
+            t.append("bond_before_opening_digit:in_domain")
+    meta = {"smiles": s, "origin": origin, "in_contract": in_contract, "excluded": sorted(hard_exc),
+            "opening_bond": opening_bond}
+    meta.update(hist_meta)
+    if not hist_meta and replay_meta is None and reused is None and not module_history:
+        meta.update({"reused_parser": False, "history": plain_history})
+    return Case(req, impl_can, in_domain=in_domain, nontrivial_key=key, tags=t, meta=meta)
 
 
 def run(tier, seed):
     r = Run("C02", tier, seed)
-    if not prepare(r, PROOFS, "C02"):
+    if not c01.prepare_tolerant(r, PROOFS, "C02"):
         return 2
     rng = r.rng
     n_strings = 1500 if tier == "quick" else 100000
-    k1 = [f for f in load_known_findings() if f["id"] == "K1"][0]
+    known = {f["id"]: f for f in load_known_findings()}
+    k1, k5 = known["K1"], known["K5"]
     # witnesses of known findings are replayed against the real code on every run
     cfile = os.path.join(CORPUS_DIR, "C02", "witnesses.json")
     if os.path.exists(cfile):
         for w in json.load(open(cfile))["cases"]:
             if w not in CORPUS:
                 CORPUS.append(w)
-    for w in k1.get("witnesses", []):
-        if w not in CORPUS:
-            CORPUS.append(w)
+    for f in (k1, k5):
+        for w in f.get("witnesses", []):
+            if w not in CORPUS:
+                CORPUS.append(w)
+
+    normalised_ok = {}       # original string -> does the writing with the opening bonds moved to the closing digits satisfy the spec?
+    hits = {"K1": 0, "K5": 0}
 
     def classify_known(o):
+        """a failing in-domain case is a known finding only inside the finding's scope, decided per case, and only
+        when the implementation does what the model does (a failure the model does not share is new)"""
+        if not o.corr:
+            return None
         s = o.case.meta.get("smiles", "")
         if k1.get("status") == "open" and has_S_then_n(s):
+            hits["K1"] += 1
             return k1
+        if k5.get("status") == "open" and o.case.meta.get("opening_bond") and normalised_ok.get(s) is True:
+            hits["K5"] += 1
+            return k5
         return None
 
     broken_assumption = []
     inconsistent = 0
     pending = []
-    for s in CORPUS:
-        c = make_case(r, s, "corpus")
+    opening_in_domain = [0, 0]        # cases, failing cases
+    seen_strings = set()
+
+    reused = c01.ReusedParsers(rng)
+    n_added = [0, 0]
+
+    def add(s, origin, tags=()):
+        if s in seen_strings:
+            return None
+        seen_strings.add(s)
+        # HISTORY scenarios: a fixed fraction (every 5th string): alternately a long-lived `Parser()` object reused
+        # across the batch and the module-level parse() after other (ITS / rejected / unfinished) strings
+        n_added[0] += 1
+        hist = n_added[0] % 5 == 0
+        if hist:
+            n_added[1] += 1
+        c = make_case(r, s, origin, tags, reused=reused if hist and n_added[1] % 2 == 0 else None,
+                      module_history=hist and n_added[1] % 2 == 1)
         if c is not None:
             pending.append(c)
+        return c
+
+    for s in CORPUS:
+        add(s, "corpus")
     produced = len(pending)
 
     def flush():
         nonlocal inconsistent
+        # companions of the opening-bond writings first: the same writing with the bond symbol at the closing digit
+        comp = []
+        for c in pending:
+            if c.meta["opening_bond"] and c.in_domain:
+                s = c.meta["smiles"]
+                chain = read_chain(s, single_digit_rings=True, atom_re=_SMILES_TOK)
+                s2 = render(normalise_opening_bonds(chain))
+                c2 = make_case(r, s2, "normalised_opening_bond")
+                if c2 is not None and c2.in_domain and not c2.meta["opening_bond"]:
+                    comp.append((s, c2))
+        outs2 = r.evaluate([c2 for _, c2 in comp], classify_known=classify_known)
+        for (s, _), o in zip(comp, outs2):
+            normalised_ok[s] = bool(o.ok_reply and o.spec_impl == "1" and o.corr)
         outs = r.evaluate(pending, classify_known=classify_known)
-        for o in outs:
+        for o in outs + outs2:
             if not o.ok_reply:
                 continue
             rd_ok, plain, wf = o.extra[0] == "1", o.extra[1] == "1", o.extra[2] == "1"
-            if o.case.meta["in_contract"] and not rd_ok and not o.case.meta["excluded"]:
+            meta = o.case.meta
+            if meta["in_contract"] and not rd_ok and not meta["excluded"]:
                 broken_assumption.append(o)
-            if o.case.in_domain and not (plain and (wf or has_S_then_n(o.case.meta["smiles"]))):
+            if o.case.in_domain and not (plain and (wf or has_S_then_n(meta["smiles"]) or meta["opening_bond"])):
                 inconsistent += 1
+            if o.case.in_domain and meta["opening_bond"]:
+                opening_in_domain[0] += 1
+                opening_in_domain[1] += o.spec_impl == "0"
         pending.clear()
 
     while produced < n_strings:
-        m = gen_mol(rng)
-        if m.GetNumAtoms() < 3:
-            continue
-        for s, how in writings(rng, m, 4):
-            c = make_case(r, s, "writing:" + how)
+        if rng.random() < 0.12:
+            s = closure_template(rng)
+            c = add(s, "closure_template")
             produced += 1
-            if c is not None:
-                pending.append(c)
+            cands = [(s, c)]
+        else:
+            m = gen_mol(rng)
+            if m.GetNumAtoms() < 3:
+                continue
+            cands = []
+            for s, how in writings(rng, m, 4):
+                c = add(s, "writing:" + how)
+                produced += 1
+                cands.append((s, c))
+        for s, c in cands:
+            # RDKit writes ring-closure bond symbols at the closing digit only: move / copy them to the opening digit
+            if c is None or not c.in_domain or rng.random() >= (0.9 if "=9" in s else 0.35):
+                continue
+            chain = read_chain(s, single_digit_rings=True, atom_re=_SMILES_TOK)
+            for ch2, how in opening_bond_variants(rng, chain):
+                add(render(ch2), "opening_bond:" + how)
+                produced += 1
         if len(pending) >= 4000:
             flush()
     flush()
+    dist = r.dist
     r.extra_cov["rdkit_vs_smilesDenote_disagreements_in_contract"] = len(broken_assumption)
-    r.extra_cov["python_domain_not_in_lean_Plain_and_WF"] = inconsistent
-    r.assumptions = [
+    r.extra_cov["python_domain_not_in_lean_Plain_and_WFRef"] = inconsistent
+    r.extra_cov["known_finding_hits_by_id"] = dict(hits)
+    r.extra_cov["history_cases(reused Parser object / module-level parse after other strings)"] = dist.get("tag:history", 0)
+    r.extra_cov["history_cases_differing_from_fresh_object"] = dist.get("tag:history:differs_from_fresh_object", 0)
+    r.extra_cov["bond_before_opening_digit_in_domain_cases"] = opening_in_domain[0]
+    r.extra_cov["bond_before_opening_digit_in_domain_cases_failing_spec"] = opening_in_domain[1]
+    r.extra_cov["out_of_domain_counts"] = {
+        "adjacent_ring_digits (excluded by the property statement)": dist.get("filter:excluded_syntax:adjacent_ring_digits", 0),
+        "unclosed_ring": dist.get("filter:excluded_syntax:unclosed_ring", 0),
+        "aromaticity_re-perceived_or_Kekule (outside the RDKit contract)":
+            dist.get("filter:out_of_contract(aromaticity re-perceived or non-aromatic bond between aromatic atoms)", 0),
+        "rdkit_rejects": dist.get("filter:rdkit_rejects", 0),
+        "not_in_shared_sub-language (brackets, %, stereo, charges; never sent)":
+            dist.get("filter:rejected_chars(brackets,%,stereo,charges)", 0) + dist.get("filter:not_in_grammar", 0),
+    }
+    r.assumptions = r.assumptions + [
         "RDKit contract (trusted, exercised on every case): on strings where sanitisation does not re-perceive aromaticity, "
         "mol_smiles_to_graph(s) = smilesDenote(s) up to c -> C; disagreements in this run: %d" % len(broken_assumption),
         "molecules are generated without stereo centres, charges or isotopes; writings containing [ ] % @ / \\ + are filtered (counted)",
-        "excluded syntax (counted, out of domain): adjacent ring digits (C12 is ring '12' for FGUtils) and a bond symbol before an opening ring digit",
+        "out of domain (counted in out_of_domain_counts): adjacent ring digits (C12 is ring '12' for FGUtils; excluded by the property statement), "
+        "strings on which RDKit re-perceives aromaticity (Kekule forms), strings RDKit rejects",
+        "a bond symbol before a ring-OPENING digit is IN the domain: a failing case there is known finding K5 only if implementation == model and "
+        "the writing with the symbol moved to the closing digit satisfies the specification; anything else is a violation",
         "everything assumed for C01 (lexer/networkx models)",
     ]
     if (broken_assumption or inconsistent) and not (r.spec_failures or r.corr_failures):
         o = broken_assumption[0] if broken_assumption else None
         p = r.write_replay("machinery", "broken_assumption", r.outcome_payload(o) if o else {"note": "domain mismatch"})
         print("ERROR property=C02 assumption broken: RDKit and smilesDenote differ on %d in-contract strings "
-              "(or python domain outside Lean Plain/WF: %d); first: %s" % (len(broken_assumption), inconsistent, p))
+              "(or python domain outside Lean Plain/WFRef: %d); first: %s" % (len(broken_assumption), inconsistent, p))
         r.finish(level="proof")
         return 2
     return r.finish(
         level="proof",
         rule="molecules assembled from %d ring systems (aromatic/hetero-aromatic, fused, spiro, bridged) and %d chain fragments (3-30 heavy atoms, "
-             "dots), 4 non-canonical writings each (random atom order and root; 20%% all bonds explicit, 8%% Kekule), filtered to the shared "
-             "sub-language; in-domain = plain, no excluded syntax, in RDKit contract; non-trivial = >=4 atoms with ring or branch, distinct strings"
+             "dots), 4 non-canonical writings each (random atom order and root; 20%% all bonds explicit, 8%% Kekule); 12%% ring templates closed on a "
+             "double bond; closing-digit bond symbols moved/copied to the opening digit (35%% / 90%% of the eligible writings); filtered to the shared "
+             "sub-language; HISTORY: every 5th string is parsed on a long-lived Parser() object (sessions of 2-40 strings with <g,h> patterns, rejected "
+             "strings such as '1CC', 'CC(C!)C' and unfinished patterns such as 'C(C' in between) or through the module-level parse() directly after such "
+             "strings; the replay records the preceding calls; in-domain = plain, no adjacent ring digits, in RDKit contract (bond symbols before opening digits included); non-trivial = "
+             ">=4 atoms with ring or branch, distinct strings"
              % (len(RINGS), len(CHAINS)),
         checker_cmd="cd lean && lake build FGVerif.Proofs.C02 && lake env lean FGVerif/Audit/C02.lean",
         explanation="C02.parse_eq_smiles (Lean, corollary of C01.parse_faithful) about the model parser and smilesDenote; the model is tied to "
                     "fgutils.parse by differential testing, smilesDenote to RDKit by the exercised contract; smilesDenote is compared with "
-                    "every implementation output")
+                    "every implementation output; C02.opening_bond_differs proves the K5 divergence for the model")
 
 
 def replay(path):
@@ -283,7 +512,11 @@ def replay(path):
         print("replay file has no input: %s" % d.get("theorem_or_correspondence"))
         return 1
     r = Run("C02", "replay", 0)
-    c = make_case(r, s, "replay")
+    if m.get("history") is not None:
+        print("HISTORY scenario (%s), preceding calls:" % ("reused Parser() object" if m.get("reused_parser") else "module-level parse()"))
+        for h in m["history"][-12:]:
+            print("    parse(%r) -> %s" % (h["pattern"], h.get("result")))
+    c = make_case(r, s, "replay", replay_meta=m)
     if c is None:
         print("string is outside the sub-language now")
         return 1
